@@ -1,6 +1,7 @@
 package io
 
 import (
+	"errors"
 	zerr "github.com/DemoHn/Zn/pkg/error"
 	"io"
 	"unicode/utf8"
@@ -13,25 +14,35 @@ type InputStream interface {
 	ReadAll() ([]rune, error)
 }
 
+var errInvalidUTF8 = errors.New("数据不是有效的 UTF-8 编码")
+
 // readRune - read bytes and yield runes
-func readRune(r io.Reader, remains []byte, b int) ([]rune, []byte, error) {
+// returns (runes, remaining bytes of an incomplete char, if the source is exhausted, error)
+func readRune(r io.Reader, remains []byte, b int) ([]rune, []byte, bool, error) {
 	p := make([]byte, b)
 	rs := make([]rune, 0)
 
 	t, err := r.Read(p)
 	if err != nil && err != io.EOF {
-		return rs, []byte{}, zerr.ReadFileError(err, " <buffer> ")
+		return rs, []byte{}, false, zerr.ReadFileError(err, " <buffer> ")
 	}
 
+	// no more data could be read from the source
+	isEnd := t == 0
 	buf := append(remains, p[:t]...)
 	for len(buf) > 0 {
 		ru, size := utf8.DecodeRune(buf)
-		if ru == utf8.RuneError {
-			return rs, buf, nil
+		// NOTE: a valid U+FFFD char is decoded as (RuneError, 3)
+		if ru == utf8.RuneError && size <= 1 {
+			// the last char of this block is incomplete - complete it with next block
+			if !utf8.FullRune(buf) && !isEnd {
+				return rs, buf, isEnd, nil
+			}
+			return rs, buf, isEnd, zerr.ReadFileError(errInvalidUTF8, " <buffer> ")
 		}
 
 		rs = append(rs, ru)
 		buf = buf[size:]
 	}
-	return rs, buf, nil
+	return rs, buf, isEnd, nil
 }
